@@ -60,6 +60,15 @@ CLAIMED = {
             "parameter tables (JWS 11, JWE 13, 7797 b64, GCMKW/ECDH/PBES2/1PU specific) equal the RFC tables incl. required flags and validator "
             "semantics; validate_registry_header / check_crit_header / check_supported_header raise as specified; caller registries are merged.",
             "RFC parameter tables as transcribed in jv/spec/tables.py", "5/C15"),
+    "C20": ("static analysis: effect / ownership analysis of every store in operation-reachable code (root of the mutated object: fresh, self, "
+            "parameter, global; alias-following), lost-update pairing, folded attribute sets of all model instances, context-escape rule",
+            "Decides effect-freedom, which implies independence under every schedule and history for the library's own state: no "
+            "operation-reachable statement stores into a module/class-level object, an algorithm model, a registry, a key, a key set or a "
+            "binding (two whitelisted lazy views on keys, each one symbol with a reason); model methods never store on self and model "
+            "attributes fold to constants / immutable configuration; MAC / cipher / KDF / padder / zlib contexts are bound to locals of the "
+            "activation; no shared field has both a rebinding and an in-place mutation site (lost update); no global/nonlocal, no mutable "
+            "defaults. Not decided: thread-safety inside pyca/OpenSSL objects of a shared key; schedules as such are not explored.",
+            "pyca/OpenSSL thread-safety; per-call header/claims/message objects (statement)", "5/C20"),
 }
 
 NOT_YET = "check not built yet (build in progress; see DESIGN.md section 5 for the planned rules)"
